@@ -207,9 +207,28 @@ class Reader:
         self.consume_keyword("at")
         alignment = self.parse_integer()
         self.consume(")")
-        variable = ir.Variable(name, binding, amount, alignment)
+        value = None
+        if self.peek == "=":
+            self.consume("=")
+            value = [self.parse_initial_value()]
+            while self.peek == ",":
+                self.consume(",")
+                value.append(self.parse_initial_value())
+            value = tuple(value)
+        variable = ir.Variable(name, binding, amount, alignment, value=value)
         self.define_value(variable)
         return variable
+
+    def parse_initial_value(self):
+        """Parse a part of the initial value of a variable.
+
+        This is either a string of hex bytes, or the address of a label.
+        """
+        if self.peek == "&":
+            self.consume("&")
+            return (ir.ptr, self.parse_id())
+        else:
+            return unhexlify(self.consume("STRING")[1])
 
     def parse_function(self, binding):
         """Parse a function or procedure"""
